@@ -338,7 +338,7 @@ pub fn run(rep: &Report) -> i32 {
         };
         let label = format!("kind={k}{} ctx={c} layout={:?} opts={oi}", k2.as_ref().map(|x| format!("+{x}")).unwrap_or_default(), ALL_LAYOUTS[*li]);
         check_sites(rep, &prog, opts, ALL_LAYOUTS[*li], &label);
-        if i % 173 == 1 {
+        if i % 173 == 1 || rep.no_sample_yet() {
             rep.sample(4, || json!({"label": label, "program": prog.render_with(RenderOpts::default(), ALL_LAYOUTS[*li])}));
         }
     });
